@@ -51,10 +51,10 @@ type FnDef struct {
 }
 
 type Stmt struct {
-	K    string  `json:"k"` // expr | if | empty | func | while
+	K    string  `json:"k"` // expr | if | empty | func | while | break | continue (the last two inside a while body only)
 	E    *Expr   `json:"e,omitempty"`
 	Fn   *FnDef  `json:"fn,omitempty"` // func
-	// while: `Ctr = 0; while Ctr < Bound { Then; Ctr = Ctr + 1 }` (Ctr an int variable, Bound 0..3)
+	// while: `Ctr = 0; while Ctr < Bound { Ctr = Ctr + 1; Then }` (Ctr a counter variable, Bound 0..3)
 	Ctr   string `json:"ctr,omitempty"`
 	Bound int64  `json:"bound,omitempty"`
 	Cond *Expr   `json:"cond,omitempty"`
@@ -276,6 +276,15 @@ func (p *printer) stmts(list []*Stmt, trail bool) {
 				}
 				p.w(sep)
 			}
+		case "break", "continue":
+			p.w(st.K)
+			if !last {
+				sep := st.Sep
+				if !okSep(sep, true) {
+					sep = ";"
+				}
+				p.w(sep)
+			}
 		case "func":
 			if st.Fn == nil {
 				p.err = errors.New("func statement without a definition")
@@ -297,15 +306,13 @@ func (p *printer) stmts(list []*Stmt, trail bool) {
 			if !okWS(in) || in == "" {
 				in = " "
 			}
-			p.w("{" + in)
-			p.stmts(st.Then, false)
+			// the counter moves first, so that a continue in the body cannot skip it
+			p.w("{" + in + st.Ctr + " = " + st.Ctr + " + 1")
 			if len(st.Then) > 0 {
-				if k := st.Then[len(st.Then)-1].K; k == "expr" || k == "func" {
-					p.w(";")
-				}
-				p.w(" ")
+				p.w("; ")
+				p.stmts(st.Then, false)
 			}
-			p.w(st.Ctr + " = " + st.Ctr + " + 1" + in + "}")
+			p.w(in + "}")
 			if !last {
 				sep := st.Sep
 				if !okSep(sep, false) {
@@ -479,6 +486,8 @@ type evaluator struct {
 	funcs map[string]*FnDef
 	// funcsInHole / loopsInHole: function definitions and loop rounds executed inside a hole
 	funcsInHole, loopsInHole int
+	// ctl: 1 after a break, 2 after a continue, until the enclosing loop takes it; jumps: how many were taken
+	ctl, jumps, loopDepth int
 	// statistics for the non-triviality rule
 	holes     int
 	maxDepth  int
@@ -669,6 +678,9 @@ func (ev *evaluator) stmts(list []*Stmt) (last Val, has bool, err error) {
 		if st == nil {
 			return Val{}, false, errInvalid
 		}
+		if ev.ctl != 0 {
+			return last, has, nil
+		}
 		switch st.K {
 		case "expr":
 			v, err := ev.expr(st.E)
@@ -681,6 +693,13 @@ func (ev *evaluator) stmts(list []*Stmt) (last Val, has bool, err error) {
 			if err := ev.ifStmt(st); err != nil {
 				return Val{}, false, err
 			}
+		case "break", "continue":
+			if ev.loopDepth == 0 {
+				return Val{}, false, errInvalid
+			}
+			ev.ctl = map[string]int{"break": 1, "continue": 2}[st.K]
+			ev.jumps++
+			return last, has, nil
 		case "func":
 			if st.Fn == nil || varType(st.Fn.Name) != 0 {
 				return Val{}, false, errInvalid
@@ -698,9 +717,6 @@ func (ev *evaluator) stmts(list []*Stmt) (last Val, has bool, err error) {
 				if rounds > 16 {
 					return Val{}, false, errInvalid
 				}
-				if _, _, err := ev.stmts(st.Then); err != nil {
-					return Val{}, false, err
-				}
 				c := ev.env[st.Ctr]
 				if c.K != 'i' {
 					return Val{}, false, errInvalid
@@ -708,6 +724,17 @@ func (ev *evaluator) stmts(list []*Stmt) (last Val, has bool, err error) {
 				ev.env[st.Ctr] = Val{K: 'i', I: c.I + 1}
 				if ev.depth > 0 {
 					ev.loopsInHole++
+				}
+				ev.loopDepth++
+				_, _, err := ev.stmts(st.Then)
+				ev.loopDepth--
+				if err != nil {
+					return Val{}, false, err
+				}
+				ctl := ev.ctl
+				ev.ctl = 0
+				if ctl == 1 {
+					break
 				}
 			}
 		default:
@@ -785,6 +812,9 @@ func (ev *evaluator) tmpl(t *Tmpl) (string, error) {
 			ev.depth--
 			if err != nil {
 				return "", err
+			}
+			if ev.ctl != 0 {
+				return "", nil // a break/continue left the hole: the template is abandoned with the round
 			}
 			if has {
 				sb.WriteString(v.String())
@@ -1048,6 +1078,22 @@ func (g *gen) whileStmt() *Stmt {
 	before := copySet(g.defined)
 	g.idepth += 2 // no function definitions and no loop inside a loop body
 	st.Then = g.stmtList(rapid.IntRange(0, 2).Draw(g.t, "nbody"), false)
+	if rapid.IntRange(0, 2).Draw(g.t, "jump") == 0 {
+		// leave the round (or the loop) from inside an if: `if Ctr == k { break }`, possibly from within a nested template's hole
+		jump := &Stmt{K: rapid.SampledFrom([]string{"break", "continue"}).Draw(g.t, "jumpKind")}
+		cond := &Expr{K: "cmp", Op: rapid.SampledFrom([]string{"==", ">=", "<"}).Draw(g.t, "jumpOp"), L: &Expr{K: "var", Name: st.Ctr}, R: &Expr{K: "int", N: int64(rapid.IntRange(1, 3).Draw(g.t, "jumpAt"))}, Sp: g.sp()}
+		ifst := &Stmt{K: "if", Cond: cond, Then: []*Stmt{jump}, In: g.ws(), Sep: rapid.SampledFrom([]string{"", " ", ";", "\n"}).Draw(g.t, "jsep")}
+		var wrapped *Stmt = ifst
+		if g.tdepth < g.maxT && rapid.IntRange(0, 2).Draw(g.t, "jumpInHole") == 0 {
+			// the jump sits in a hole of a template that is being assembled inside the loop body
+			h := &Hole{Pct: rapid.Bool().Draw(g.t, "jpct"), Body: []*Stmt{ifst}}
+			t := &Tmpl{D: rapid.IntRange(dBack, dRS).Draw(g.t, "jtd"), Parts: []*Part{{Lit: g.lit(dBack, 3, "jl")}, {Hole: h}, {Lit: g.lit(dBack, 3, "jr")}}}
+			t.Parts[0].Lit, t.Parts[2].Lit = g.lit(t.D, 3, "jl2"), g.lit(t.D, 3, "jr2")
+			wrapped = &Stmt{K: "expr", E: &Expr{K: "tmpl", T: t}, Sep: ";"}
+		}
+		at := rapid.IntRange(0, len(st.Then)).Draw(g.t, "jumpPos")
+		st.Then = append(st.Then[:at:at], append([]*Stmt{wrapped}, st.Then[at:]...)...)
+	}
 	g.idepth -= 2
 	g.defined = before // the body may run zero times
 	return st
